@@ -369,6 +369,15 @@ pub fn record(args: &[String]) {
                     }
                 }
             }
+            // the default output of `zerv version` / `zerv flow` from the git source (C01)
+            {
+                let dir = repo.dir.to_string_lossy().to_string();
+                let of = ["semver", "pep440"][rng.gen_range(0..2)];
+                let cmd = ["version", "flow"][rng.gen_range(0..2)];
+                if let Outcome::Ok(text) = run_cli(&argv(&[cmd, "-C", &dir, "--output-format", of]), None) {
+                    events.push(json!({"k": "gitout", "cmd": cmd, "fmt": of, "text": to_cps(&text)}));
+                }
+            }
             let fmt = ["auto", "semver", "pep440"][rng.gen_range(0..3)];
             let kind = KINDS[[0, 0, 0, 1, 2, 3, 4][rng.gen_range(0..7)]];
             repo.touch(kind);
